@@ -716,3 +716,183 @@ Section Q.
 End Q.
 
 Print Assumptions indent_tokens_wf.
+
+(* ---------- G. every source the lexer accepts is a rendering ---------- *)
+
+Lemma take_line_split s : forall a b, take_line s = (a, b) -> s = a ++ b /\ ~ In 10%N a /\ (b = [] \/ exists b', b = 10%N :: b').
+Proof.
+  induction s as [|c s IH]; intros a b H; cbn [take_line] in H.
+  - inversion H; subst. split; [reflexivity|split; [intros []|left; reflexivity]].
+  - destruct (c =? 10)%N eqn:E.
+    + inversion H; subst. apply N.eqb_eq in E. subst c. split; [reflexivity|split; [intros []|right; eexists; reflexivity]].
+    + destruct (take_line s) as [a' b'] eqn:Et. inversion H; subst. destruct (IH a' b eq_refl) as (E1 & E2 & E3).
+      split; [cbn [app]; f_equal; exact E1|split; [|exact E3]]. intros [Hc|Hin]; [subst c; discriminate|exact (E2 Hin)].
+Qed.
+
+Lemma take_string_split s : forall a b, take_string s = Some (a, b) -> s = a ++ 34%N :: b /\ ~ In 34%N a.
+Proof.
+  induction s as [|c s IH]; intros a b H; cbn [take_string] in H; [discriminate|].
+  destruct (c =? 34)%N eqn:E.
+  - inversion H; subst. apply N.eqb_eq in E. subst c. split; [reflexivity|intros []].
+  - destruct (take_string s) as [[a' b']|] eqn:Et; [|discriminate]. inversion H; subst. destruct (IH a' b eq_refl) as (E1 & E2).
+    split; [cbn [app]; f_equal; exact E1|]. intros [Hc|Hin]; [subst c; discriminate|exact (E2 Hin)].
+Qed.
+
+Lemma take_word_split s : forall a b, take_word s = (a, b) -> s = a ++ b /\ Forall (fun c => wordc c = true) a /\ stops b.
+Proof.
+  induction s as [|c s IH]; intros a b H; cbn [take_word] in H.
+  - inversion H; subst. split; [reflexivity|split; [constructor|exact I]].
+  - destruct (is_space c || is_delim c) eqn:E.
+    + inversion H; subst. split; [reflexivity|split; [constructor|]]. cbn [stops]. unfold wordc. rewrite E. reflexivity.
+    + destruct (take_word s) as [a' b'] eqn:Et. inversion H; subst. destruct (IH a' b eq_refl) as (E1 & E2 & E3).
+      split; [cbn [app]; f_equal; exact E1|split; [|exact E3]]. constructor; [unfold wordc; rewrite E; reflexivity|exact E2].
+Qed.
+
+Lemma str_eqb_single' c w d : c <> d -> str_eqb (c :: w) [d] = false.
+Proof. intros H. unfold str_eqb. cbn [list_eqb]. replace (c =? d)%N with false by (symmetry; apply N.eqb_neq; exact H). reflexivity. Qed.
+
+Section C.
+  Variable is_letter is_number : N -> bool.
+  Notation wf_tok := (wf_tok is_letter is_number).
+  Notation wf_items := (wf_items is_letter is_number).
+  Notation classify := (classify is_letter is_number).
+  Notation lex_loop := (lex_loop is_letter is_number).
+
+  Lemma classify_plain_word c w ts : wordc c = true -> classify false (c :: w) = Some ts ->
+    ts = [KInt (c :: w)] \/ ts = [KIdent (c :: w)].
+  Proof.
+    intros Hc H. unfold Lexer.classify in H. rewrite andb_false_r in H.
+    assert (N40 : c <> 40%N) by (intros ->; discriminate). assert (N41 : c <> 41%N) by (intros ->; discriminate).
+    assert (N91 : c <> 91%N) by (intros ->; discriminate). assert (N93 : c <> 93%N) by (intros ->; discriminate).
+    assert (N44 : c <> 44%N) by (intros ->; discriminate).
+    change (ss "(") with [40%N] in H. change (ss ")") with [41%N] in H. change (ss "[") with [91%N] in H.
+    change (ss "]") with [93%N] in H. change (ss ",") with [44%N] in H.
+    rewrite !str_eqb_single' in H by assumption.
+    destruct (valid_int (c :: w)); [left; inversion H; reflexivity|].
+    destruct (valid_ident is_letter is_number (c :: w)); [right; inversion H; reflexivity|discriminate].
+  Qed.
+
+  Lemma delim_token c ts : is_delim c = true -> (c =? 59)%N = false -> classify false [c] = Some ts ->
+    exists t, ts = [t] /\ tok_text t = [c] /\ wf_tok false t /\ is_word_tok t = false /\ is_comment t = false.
+  Proof.
+    intros Hd H59 H. unfold is_delim in Hd. rewrite H59 in Hd.
+    assert (Hc : c = 40%N \/ c = 41%N \/ c = 91%N \/ c = 93%N \/ c = 44%N) by lia.
+    destruct Hc as [->|[->|[->|[->| ->]]]]; cbn in H; inversion H; subst; eexists; (split; [reflexivity|repeat split]).
+  Qed.
+
+  Theorem lex_complete : forall fuel s toks, lex_loop fuel false s = Some toks ->
+    exists lead items, s = lead ++ render items /\ all_space lead /\ wf_items false items /\ map fst items = toks.
+  Proof.
+    induction fuel as [|f IH]; intros s toks H; [discriminate|]. cbn [Lexer.lex_loop] in H. unfold Lexer.next_raw in H.
+    destruct (trim_left_split s) as (ws & Es & Hws). destruct (trim_left_head s) as [Et|(c & s' & Et & Hc)]; rewrite Et in *.
+    { injection H as <-. exists ws, []. rewrite app_nil_r in Es. repeat split; try assumption. cbn [render]. rewrite app_nil_r. exact Es. }
+    (* what the recursive call gives *)
+    assert (REC : forall rest l, lex_loop f false rest = Some l ->
+              exists lead items, rest = lead ++ render items /\ all_space lead /\ wf_items false items /\ map fst items = l)
+      by (intros; apply IH; assumption).
+    destruct (c =? 59)%N eqn:E59.
+    { apply N.eqb_eq in E59. subst c. destruct (take_line (59%N :: s')) as [a b] eqn:Etl.
+      destruct (lex_loop f false b) as [l|] eqn:El; [|discriminate]. inversion H; subst toks. clear H.
+      destruct (take_line_split _ _ _ Etl) as (E1 & E2 & E3).
+      cbn [take_line] in Etl. change (59 =? 10)%N with false in Etl. destruct (take_line s') as [a' b'] eqn:Etl'. inversion Etl; subst a b'. clear Etl.
+      destruct (REC b l El) as (lead & items & Eb & Hl & Hwf & Em).
+      exists ws, ((KComment (59%N :: a'), lead) :: items). split; [|split; [exact Hws|split]].
+      - rewrite Es, E1, Eb. cbn [render tok_text]. reflexivity.
+      - cbn [LexProofs.wf_items]. split; [|split; [|exact Hwf]].
+        + cbn [LexProofs.wf_tok]. exists a'. split; [reflexivity|]. intros Hin. apply E2. right. exact Hin.
+        + split; [exact Hl|split; [intros _ Hw; discriminate|]]. intros _.
+          destruct E3 as [->|[b' ->]].
+          * right. symmetry in Eb. apply app_eq_nil in Eb. exact Eb.
+          * left. destruct lead as [|x lead]; [|cbn [app] in Eb; inversion Eb; subst; eexists; reflexivity].
+            exfalso. cbn [app] in Eb. destruct items as [|[u su] r]; [discriminate|]. cbn [LexProofs.wf_items render] in *.
+            destruct Hwf as (Hu & _). destruct (tok_head is_letter is_number false u Hu) as (x & r' & Ex & Hx). rewrite Ex in Eb.
+            inversion Eb; subst x. discriminate.
+      - cbn [map fst]. rewrite Em. reflexivity. }
+    destruct (c =? 34)%N eqn:E34.
+    { apply N.eqb_eq in E34. subst c. destruct (take_string s') as [[a b]|] eqn:Ets; [|discriminate].
+      destruct (lex_loop f false b) as [l|] eqn:El; [|discriminate]. inversion H; subst toks. clear H.
+      destruct (take_string_split _ _ _ Ets) as (E1 & E2).
+      destruct (REC b l El) as (lead & items & Eb & Hl & Hwf & Em).
+      exists ws, ((KStr a, lead) :: items). split; [|split; [exact Hws|split]].
+      - rewrite Es, E1, Eb. cbn [render tok_text app]. rewrite <- app_assoc. reflexivity.
+      - cbn [LexProofs.wf_items]. split; [exact E2|split; [|exact Hwf]].
+        split; [exact Hl|split; [intros _ Hw; discriminate|intros Hc'; discriminate]].
+      - cbn [map fst]. rewrite Em. reflexivity. }
+    destruct (is_delim c) eqn:Ed.
+    { destruct (classify false [c]) as [ts|] eqn:Ecl; [|discriminate].
+      destruct (lex_loop f false s') as [l|] eqn:El; [|discriminate]. inversion H; subst toks. clear H.
+      destruct (delim_token c ts Ed E59 Ecl) as (t & -> & Ett & Hwt & Hnw & Hnc).
+      destruct (REC s' l El) as (lead & items & Eb & Hl & Hwf & Em).
+      exists ws, ((t, lead) :: items). split; [|split; [exact Hws|split]].
+      - rewrite Es, Eb. cbn [render]. rewrite Ett. reflexivity.
+      - cbn [LexProofs.wf_items]. split; [exact Hwt|split; [|exact Hwf]].
+        split; [exact Hl|split; [intros _ Hw; congruence|intros Hc'; congruence]].
+      - cbn [map fst app]. rewrite Em. reflexivity. }
+    (* an ordinary word *)
+    destruct (take_word (c :: s')) as [a b] eqn:Etw.
+    destruct (classify false a) as [ts|] eqn:Ecl; [|discriminate].
+    destruct (lex_loop f false b) as [l|] eqn:El; [|discriminate]. inversion H; subst toks. clear H.
+    destruct (take_word_split _ _ _ Etw) as (E1 & E2 & E3).
+    assert (Hwc : wordc c = true) by (unfold wordc; rewrite Hc, Ed; reflexivity).
+    cbn [take_word] in Etw. rewrite Hc, Ed in Etw. cbn [orb] in Etw. destruct (take_word s') as [w b'] eqn:Etw'. inversion Etw; subst a b'. clear Etw.
+    pose proof (Forall_inv_tail E2) as Hw.
+    destruct (REC b l El) as (lead & items & Eb & Hl & Hwf & Em).
+    assert (Hshape : exists c0 w0, c :: w = c0 :: w0 /\ wordc c0 = true /\ c0 <> 59%N /\ c0 <> 34%N /\ Forall (fun c => wordc c = true) w0).
+    { exists c, w. split; [reflexivity|split; [exact Hwc|split; [apply N.eqb_neq; exact E59|split; [apply N.eqb_neq; exact E34|exact Hw]]]]. }
+    assert (Hsep : forall t, is_word_tok t = true -> is_comment t = false -> sep_ok t lead (render items)).
+    { intros t Hw1 Hc1. split; [exact Hl|split; [|intros Hc'; congruence]]. intros -> _. cbn [app] in Eb. rewrite <- Eb. exact E3. }
+    destruct (classify_plain_word c w ts Hwc Ecl) as [-> | ->].
+    - exists ws, ((KInt (c :: w), lead) :: items). split; [|split; [exact Hws|split]].
+      + rewrite Es, E1, Eb. cbn [render tok_text]. reflexivity.
+      + cbn [LexProofs.wf_items]. split; [split; [exact Hshape|exact Ecl]|split; [apply Hsep; reflexivity|exact Hwf]].
+      + cbn [map fst app]. rewrite Em. reflexivity.
+    - exists ws, ((KIdent (c :: w), lead) :: items). split; [|split; [exact Hws|split]].
+      + rewrite Es, E1, Eb. cbn [render tok_text]. reflexivity.
+      + cbn [LexProofs.wf_items]. split; [split; [exact Hshape|exact Ecl]|split; [apply Hsep; reflexivity|exact Hwf]].
+      + cbn [map fst app]. rewrite Em. reflexivity.
+  Qed.
+End C.
+
+(* ---------- H. the formatter on every source the (prefix-notation) lexer accepts ---------- *)
+
+Theorem indent_lexable is_letter is_number : is_letter 34%N = false -> is_number 34%N = false ->
+  forall s toks, lex is_letter is_number false s = Some toks ->
+  lex is_letter is_number false (indent_by_parens s) = Some (trim_last toks).
+Proof.
+  intros HL HN s toks H. unfold lex in H. destruct (lex_complete is_letter is_number _ s toks H) as (lead & items & -> & Hl & Hwf & <-).
+  apply (indent_tokens_wf is_letter is_number HL HN false lead items Hl Hwf).
+Qed.
+
+Corollary indent_meaning_lexable is_letter is_number : is_letter 34%N = false -> is_number 34%N = false ->
+  forall s toks, lex is_letter is_number false s = Some toks ->
+  option_map drop_comments (lex is_letter is_number false (indent_by_parens s)) =
+  option_map drop_comments (lex is_letter is_number false s).
+Proof.
+  intros HL HN s toks H. rewrite (indent_lexable is_letter is_number HL HN s toks H), H. cbn [option_map]. rewrite trim_last_drop. reflexivity.
+Qed.
+
+(* formatting twice = the tokens of formatting once *)
+Corollary indent_twice is_letter is_number : is_letter 34%N = false -> is_number 34%N = false ->
+  forall s toks, lex is_letter is_number false s = Some toks ->
+  option_map drop_comments (lex is_letter is_number false (indent_by_parens (indent_by_parens s))) = Some (drop_comments toks).
+Proof.
+  intros HL HN s toks H. pose proof (indent_lexable is_letter is_number HL HN s toks H) as H1.
+  rewrite (indent_lexable is_letter is_number HL HN _ _ H1). cbn [option_map]. rewrite !trim_last_drop. reflexivity.
+Qed.
+
+(* the comments before the first token (where directives are read) are untouched whenever there is a token at all *)
+Lemma leading_app a b : existsb (fun t => negb (is_comment t)) a = true -> leading_comments (a ++ b) = leading_comments a.
+Proof.
+  induction a as [|t a IH]; intros H; [discriminate|]. cbn [existsb] in H. destruct t; try reflexivity.
+  cbn [is_comment negb orb] in H. cbn [app leading_comments]. rewrite (IH H). reflexivity.
+Qed.
+Lemma trim_last_leading toks : existsb (fun t => negb (is_comment t)) toks = true ->
+  leading_comments (trim_last toks) = leading_comments toks.
+Proof.
+  intros H. unfold trim_last. destruct (rev toks) as [|t r] eqn:E; [reflexivity|]. destruct t; try reflexivity.
+  assert (Et : toks = rev r ++ [KComment s]) by (rewrite <- (rev_involutive toks), E; reflexivity).
+  rewrite Et in H |- *. rewrite existsb_app in H. cbn [existsb is_comment negb orb] in H. rewrite orb_false_r in H.
+  rewrite !leading_app by exact H. reflexivity.
+Qed.
+
+Print Assumptions indent_lexable.
